@@ -64,7 +64,7 @@ def cli_part(ctx: Ctx, cases: list[dict[str, Any]], quick: bool) -> None:
     w = pvlib.Worker(0)
     try:
         for k, c in enumerate(picked):
-            name = r.choice(["wf", "Order Flow", "a b c", "x-1"])
+            name = r.choice(["wf", "Order Flow", "a b c", "x-1", "wf one ", " lead", "Zo\u00eb 50%"])
             stem = name.replace(" ", "_")
             pv = [[{**e, "jobName": name} for e in j] for j in lc.present(ctx, c["jobs"])]
             cut = r.randrange(1, len(pv))
